@@ -399,6 +399,7 @@ func Run(args []string) int {
 	replay := fs.String("replay", "", "")
 	workers := fs.Int("j", 8, "parallel pipeline runs")
 	fragment := fs.Int("fragment", 0, "emit only this many scenarios of C02's fragment profile (stream for driver mode `render`)")
+	fragmentTLS := fs.Int("fragment-tls", 0, "emit only this many scenarios of C16's TLS fragment generator (stream for driver mode `rendertls`)")
 	if err := fs.Parse(args); err != nil {
 		return 2
 	}
@@ -406,6 +407,10 @@ func Run(args []string) int {
 	defer w.Flush()
 	if *fragment > 0 {
 		runFragments(w, *seed, *fragment, *only)
+		return 0
+	}
+	if *fragmentTLS > 0 {
+		runFragmentsTLS(w, *seed, *fragmentTLS, *only)
 		return 0
 	}
 	enc := json.NewEncoder(w)
